@@ -24,6 +24,9 @@ def run(chk, replay=None):
         scen += 1; fam.append(rrlib.rep_script(seq, scen))
     for seq in rrlib.gen_seqs(chk, rrlib.REQ_OPS, 5 if thorough else 4, ["recv_drop", "attach2", "punsol"], "req"):
         scen += 1; fam.append(rrlib.req_script(seq, scen))
+    for seq in rrlib.gen_seqs(chk, rrlib.REQ_OPS_GONE, 6 if thorough else 5, ["recv_drop", "attach2", "pclose1"], "reqgone"):
+        if "pclose1" in seq and "attach2" in seq:
+            scen += 1; fam.append(rrlib.req_script(seq, scen))
     for s in fam: chk.case(("seq", s["scen"]))
     rrlib.run_and_report(chk, fam, "c07-seq", ("C07/",))
     rnd = rrlib.random_rep_scripts(rng, 1500 if thorough else 200, scen + 1)
